@@ -20,7 +20,7 @@ import weave
 from gt import FLOAT_VECS, MATS, AFFINES, MAT_BY_NAME, BY_NAME
 
 PROP = "C18"
-UF_ALL = ["uf_sqrt", "uf_sin_cos", "uf_sin", "uf_tan", "uf_atan2", "uf_exp", "uf_powf", "uf_mul_add", "uf_div_euclid", "uf_rem_euclid"]
+UF_ALL = ["hv_sqrt", "hv_sin_cos", "hv_sin", "hv_tan", "hv_atan2", "hv_exp", "hv_powf", "hv_mul_add", "hv_div_euclid", "hv_rem_euclid"]
 KNOWN_T = set([v.name for v in FLOAT_VECS] + [m.name for m in MATS + AFFINES] + ["Quat", "DQuat", "BVec2", "BVec3", "BVec4", "BVec3A", "BVec4A"])
 
 
@@ -76,6 +76,10 @@ def build(config, tier):
             continue
         w = 32 if t == "f32" else 64
         src = open(os.path.join(weave.REPO, f)).read()
+        # the scalar Vec4 names its mask through `use crate::BVec4 as BVec4A`: resolve local aliases
+        for am in re.finditer(r"\b(\w+) as (\w+)\b", " ".join(re.findall(r"^use crate::[^;]+;", src, re.M))):
+            if am.group(2) in KNOWN_T:
+                src = re.sub(r"\b%s\b" % am.group(2), am.group(1), src)
         ln = N.lower()
         calls = []   # (fn name, statement)
         for m in re.finditer(r"^    pub (?:const )?fn (\w+)(<[^>]*>)?\(\s*([^)]*?)\s*\)(?: -> ([^{]+?))? \{", src, re.M | re.S):
@@ -122,7 +126,7 @@ def build(config, tier):
                 calls.append((fn, "{ let _r = <%s>::%s(%s); }" % (N, fn, ", ".join(exprs))))
         # operator traits: exercised through C01/C03/C04 contracts (they panic-check as well)
         B = 6
-        stubs = ["sse"] + ["%s%d" % (u, w) for u in UF_ALL]
+        stubs = ["sse_hv"] + ["%s%d" % (u, w) for u in UF_ALL]
         quick = simd or t == "f32"
         for bi in range(0, len(calls), B):
             chunk = calls[bi:bi + B]
